@@ -28,8 +28,17 @@ HueGridVerdict(ev) == {}      \* periodicity and greys need two events; see the 
 GrayAlphaVerdict(ev) ==
     IF ev.rgba[4] = ev.a THEN {} ELSE {V("P_GrayAlphaCarriesAlpha", "None", "gray_alpha", ev)}
 
+\* across depths gray and alpha are carried by channel_convert: 8 -> 16 is v * 257, 16 -> 8 of v * 257 is v, 8 -> float is v / 255 (logged x 255 x 256)
+GrayAlphaXVerdict(ev) ==
+    LET exp == CASE ev.dir = "8->16" -> <<ev.v * 257, ev.v * 257, ev.v * 257, ev.a * 257>>
+                 [] ev.dir = "16->8" -> <<ev.v, ev.v, ev.v, ev.a>>
+                 [] ev.dir = "8->32f" -> <<ev.v * 256, ev.v * 256, ev.v * 256, ev.a * 256>>
+        ok == IF ev.dir = "8->32f" THEN \A c \in 1..4 : Abs(ev.rgba[c] - exp[c]) <= 1 ELSE ev.rgba = exp
+    IN IF ok THEN {} ELSE {V("P_GrayAlphaCarriesAlpha", "None", "gray_alpha:" \o ev.dir, [v |-> ev.v, a |-> ev.a, expected |-> exp, got |-> ev.rgba])}
+
 Verdict(ev, grid) ==
-    CASE ev.e = "SpaceRow"  -> SpaceRowVerdict(ev)
+    CASE ev.e = "GrayAlphaX" -> GrayAlphaXVerdict(ev)
+      [] ev.e = "SpaceRow"  -> SpaceRowVerdict(ev)
       [] ev.e = "GrayAlpha" -> GrayAlphaVerdict(ev)
       [] ev.e = "HueGrid"   ->
             \* greys ignore hue: with saturation 0 the result equals that of hue 0;  hue 1 = hue 0
